@@ -342,7 +342,7 @@ def gen_cubic(rng: random.Random, tier: str) -> dict:
     if center:
         kw["constraints"] = "center"
     if rng.random() < 0.6:
-        kw["df"] = rng.randint(3 if not cyclic else 2, 6)
+        kw["df"] = rng.randint(2, 6)  # (2 = no interior knot for the natural spline, one for the cyclic one)
     else:
         lo, hi = float(xa.min()), float(xa.max())
         kw["knots"] = sorted({round(rng.uniform(lo, hi), 6) for _ in range(rng.randint(1 if not cyclic else 2, 4))})
